@@ -24,6 +24,10 @@ extern "C" const char *__asan_default_options()
     return "abort_on_error=1:detect_leaks=0:detect_stack_use_after_return=1:"
            "allocator_may_return_null=1:handle_abort=0:print_summary=1";
 }
+extern "C" const char *__tsan_default_options()
+{
+    return "halt_on_error=1:abort_on_error=1:die_after_fork=0:report_signal_unsafe=0:history_size=2";
+}
 extern "C" const char *__ubsan_default_options()
 {
     return "halt_on_error=1:abort_on_error=1:print_stacktrace=0";
@@ -90,6 +94,7 @@ namespace mc
     static int depth = 0, fresh_from = 0;
     static int dev_bound = 1 << 30, dev_count = 0;
     static bool case_viol = false, case_nontriv = false;
+    static uint64_t case_edges = 0;
     static std::string case_desc;
     static std::vector<std::string> case_v;   // buffered V lines
     static std::vector<uint64_t> case_outc;
@@ -238,7 +243,7 @@ namespace mc
             }
         }
         if (d >= fresh_from)
-            S->edges++;
+            case_edges++;
         depth++;
         if (slot)
             slot->depth = depth;
@@ -341,6 +346,8 @@ namespace mc
         if (slot)
             slot->progress++;
     }
+    static bool g_restart = false;
+    void request_restart() { g_restart = true; }
     void cap(const std::string &what)
     {
         if (capset.insert(what).second && g_log)
@@ -416,6 +423,7 @@ namespace mc
         dev_count = 0;
         case_viol = false;
         case_nontriv = false;
+        case_edges = 0;
         case_desc.clear();
         case_v.clear();
         case_outc.clear();
@@ -444,6 +452,8 @@ namespace mc
     {
         if (!is_transition)
             S->evals++;
+        S->edges += case_edges;
+        case_edges = 0;
         my_evals++;
         if (case_nontriv)
             S->nontriv++;
@@ -514,6 +524,12 @@ namespace mc
         catch (Abort &)
         {
         }
+        catch (Skip &)
+        {
+            if (slot)
+                slot->in_case = 0;
+            return;
+        }
         if (done && depth < must_reach)
             harness_error("nondeterministic choice tree in %s: case ended at depth %d, expected >= %d",
                           cur->name.c_str(), depth, must_reach);
@@ -567,6 +583,13 @@ namespace mc
             for (;;)
             {
                 run_one_case();
+                if (g_restart)
+                {
+                    flush_counters();
+                    fclose(g_log);
+                    fflush(nullptr);
+                    _exit(4);
+                }
                 if (ar[0] >= 0 && ch[0] >= ar[0])
                     break;
                 if (depth == 0)
@@ -759,6 +782,18 @@ namespace mc
             if (k == "unknown-crash")
                 k = "heap-buffer-overflow"; // an access straddling the end of a block
             return "asan-" + k;
+        }
+        if ((p = errtxt.find("ThreadSanitizer: ")) != std::string::npos)
+        {
+            std::string k = errtxt.substr(p + 17, 60);
+            size_t e = k.find_first_of("(\n");
+            k = k.substr(0, e);
+            while (!k.empty() && k.back() == ' ')
+                k.pop_back();
+            for (auto &ch2 : k)
+                if (ch2 == ' ')
+                    ch2 = '-';
+            return "tsan-" + k;
         }
         if (errtxt.find("runtime error:") != std::string::npos)
             return "ubsan";
@@ -998,6 +1033,13 @@ namespace mc
                     {
                         pid[w] = 0;
                         live--;
+                        continue;
+                    }
+                    if (WIFEXITED(st) && WEXITSTATUS(st) == 4 && !c.is_bfs)
+                    { // voluntary restart: last case was committed, resume after it
+                        lastp[w] = S->slot[w].progress.load();
+                        lastt[w] = now();
+                        pid[w] = spawn_worker(c, w, true);
                         continue;
                     }
                     if (WIFEXITED(st) && WEXITSTATUS(st) == 3)
